@@ -92,12 +92,21 @@ def isolate_crash(layer, lines, mode, impl_args=(), env_extra=None, per_run_time
     return scripts[lo] if broken(scripts[lo:lo + 1]) else None
 
 
+_SHRINK_DEADLINE = None
+
+
 def ddmin(lines, fails, keep_first=1, budget=40):
     """shrink a failing script (list of lines); the first `keep_first` lines are kept."""
     head, body = lines[:keep_first], lines[keep_first:]
     n = 2
     runs = 0
-    while len(body) >= 2 and runs < budget:
+    # shrinking is a convenience for the reader of the replay: it never may make a check run long (a broken implementation can
+    # be slow on every attempt).  All the shrinking of one check run shares one wall-clock allowance
+    import time
+    global _SHRINK_DEADLINE
+    if _SHRINK_DEADLINE is None:
+        _SHRINK_DEADLINE = time.time() + float(os.environ.get("VERIF_SHRINK_SECONDS", "60"))
+    while len(body) >= 2 and runs < budget and time.time() < _SHRINK_DEADLINE:
         chunk = max(1, len(body) // n)
         reduced = False
         for i in range(0, len(body), chunk):
@@ -108,7 +117,7 @@ def ddmin(lines, fails, keep_first=1, budget=40):
                 n = max(n - 1, 2)
                 reduced = True
                 break
-            if runs >= budget:
+            if runs >= budget or time.time() >= _SHRINK_DEADLINE:
                 break
         if not reduced:
             if chunk == 1:
